@@ -19,7 +19,7 @@ RULE = (
 )
 ASSUMPTIONS = ["integer PD alphabet: distinct eigenvalues, condition numbers <= ~1e2", "lanczos tolerances include the documented relative tridiagonal jitter (1e-6)"]
 CHUNK = 12
-CASE_TIMEOUT = 600
+CASE_TIMEOUT = 3600
 DT = torch.float64
 
 ROOT_METHODS = [None, "cholesky", "symeig", "lanczos", "svd", "pivoted_cholesky", "diagonalization"]
